@@ -97,6 +97,8 @@ def run_shape(tdir, work, inv, k, rep=0):
     before = snapshot(d)
     argv = [os.path.join(tdir, tool)]
     o = [inv["opt"], target] if inv["opt"] != "none" else []
+    if tool in ("xrun", "hexsim") and inv["opt"] != "none":
+        o = [inv["opt"]] + (["100000000"] if inv["opt"] == "--max-cycles" else [])
     argv += (o + [srcname]) if inv["pos"] == "before" else ([srcname] + o)
     try:
         p = subprocess.run(argv, cwd=d, input=stdin_of(inv), stdout=subprocess.PIPE, stderr=subprocess.PIPE, timeout=60)
